@@ -187,8 +187,12 @@ ParseBlockTok(p, tk) ==
         IF ~top.loop THEN Err(p, span)
         ELSE LET vis == {i \in 1..depth : /\ p.st[i].op \in {"for", "while"}
                                           /\ \A j \in (i + 1)..depth : p.st[j].op # "apply"}
-             IN AddNode(MarkUn(p, sfx # <<>> \/ \A i \in vis : p.st[i].parts # <<>>, "python"),
-                        [k |-> "brk", op |-> o])
+                 good == {i \in vis : p.st[i].parts = <<>>}      \* loops whose body (not else part) we are in
+                 (* invalid Python: no binding loop; left open: the binding loop lies outside a named block
+                    (the block body may be generated elsewhere through inheritance) *)
+                 bad == \/ sfx # <<>> \/ good = {}
+                        \/ \E j \in (MaxS(good) + 1)..depth : p.st[j].op = "block"
+             IN AddNode(MarkUn(p, bad, "python"), [k |-> "brk", op |-> o])
     ELSE Err(p, span)
 
 ParseTok(p, tk) ==
